@@ -85,7 +85,7 @@ LEAF_TYPES = {
     "f32": ("f32", ["2.5f32"], ["Display"]),
     "bool": ("bool", ["true", "false"], ["Display"]),
     "char": ("char", ["'x'", "'\\n'"], ["Display"]),
-    "str": ("&'static str", ['"hi"', '"a\\nb"', '"q\\"z"', '""'], ["Display"]),
+    "str": ("&'static str", ['"hi"', '"a\\nb"', '"q\\"z"', '""', '"é🦀"'], ["Display"]),
     "String": ("String", ['String::from("s t")'], ["Display"]),
     "unit": ("()", ["()"], []),
     "ML": ("crate::ML", ["crate::ML"], []),
@@ -94,9 +94,11 @@ LEAF_TYPES = {
     "Chunky": ("crate::Chunky", ["crate::Chunky"], []),
     "WF": ("crate::WF", ["crate::WF(7)"], []),
     "Fail": ("crate::Fail", ["crate::Fail"], []),
+    "Edge": ("crate::Edge", ['crate::Edge("x\\n")', 'crate::Edge("\\ny")', 'crate::Edge("")', 'crate::Edge("\\n")',
+                            'crate::Edge("a\\r\\nb")', 'crate::Edge("\\n\\n")', 'crate::Edge("é🦀\\n  z")'], []),
 }
 COMMON_LEAVES = ["i32", "i32", "i32", "u8", "f64", "str", "bool", "char", "String", "i64", "f32", "unit"]
-ODD_LEAVES = ["ML", "Pad", "AltAware", "Chunky", "WF"]
+ODD_LEAVES = ["ML", "Pad", "AltAware", "Chunky", "WF", "Edge", "Edge"]
 
 LEAF_RS = r'''
 pub struct ML;
@@ -113,6 +115,8 @@ impl core::fmt::Debug for Chunky { fn fmt(&self, f: &mut core::fmt::Formatter<'_
 pub struct WF(pub i32);
 impl core::fmt::Debug for WF { fn fmt(&self, f: &mut core::fmt::Formatter<'_>) -> core::fmt::Result {
     write!(f, "<{:>3}|{}>", self.0, "z") } }
+pub struct Edge(pub &'static str);
+impl core::fmt::Debug for Edge { fn fmt(&self, f: &mut core::fmt::Formatter<'_>) -> core::fmt::Result { f.write_str(self.0) } }
 pub struct Fail;
 impl core::fmt::Debug for Fail { fn fmt(&self, f: &mut core::fmt::Formatter<'_>) -> core::fmt::Result {
     f.write_str("F")?; Err(core::fmt::Error) } }
@@ -647,12 +651,12 @@ class Gen:
     # ---- fields / items
     def field_names(self, n, raw_p=0.0):
         r = self.rng
-        pool = ["a", "b", "c", "d", "long_name", "x1"]
+        pool = ["a", "b", "c", "d", "long_name", "x1"] + ["g%d" % k for k in range(max(0, n - 6))]
         raws = r.sample(RAW_NAMES, len(RAW_NAMES))
         out = []
         for i in range(n):
             if r.random() < raw_p:
-                out.append(ident(raws[i], True))
+                out.append(ident(raws[i % len(raws)], True) if i < len(raws) else ident(pool[i]))
             else:
                 out.append(ident(pool[i]))
         return out
